@@ -238,4 +238,17 @@ def dfsCmd (ws : List String) : IO String := do
     | _, _, _, _, _, _, _ => return "err parse"
   | _ => return "err usage"
 
+/-- `emit wait32|wait64|notify <stackIndex> <offset>` → the statement text of `Futex.Emit` -/
+def emitCmd (ws : List String) : String :=
+  match ws with
+  | [kind, kS, offS] =>
+    match kS.toNat?, offS.toNat? with
+    | some k, some off =>
+      if kind = "wait32" then Emit.waitStmt false k off
+      else if kind = "wait64" then Emit.waitStmt true k off
+      else if kind = "notify" then Emit.notifyStmt k off
+      else "err kind"
+    | _, _ => "err parse"
+  | _ => "err usage"
+
 end Driver.Futex
